@@ -378,9 +378,53 @@ Definition cfg_ok (c : cfg) : bool :=
   negb (c_qon c && c_ion c) && (c_jit c =? 0) && (1 <=? c_wtick c) && (0 <? c_qttl c) && (0 <? c_ittl c)
   && (c_ittl c <=? c_full c) && Nat.leb 1 (c_page c).
 
+(* cfg_ok without its first two conjuncts (used by the refutations) *)
+Definition cfg_rest (c : cfg) : bool :=
+  (1 <=? c_wtick c) && (0 <? c_qttl c) && (0 <? c_ittl c) && (c_ittl c <=? c_full c) && Nat.leb 1 (c_page c).
+
 Definition no_finish (h : list op) : bool :=
   forallb (fun o => match o with InvFinish => false | _ => true end) h.
 
 (* the configuration of a real server (times in milliseconds): both TTLs 10 s, controller 10 s *)
 Definition real_cfg (qon ion : bool) (jit : N) : cfg :=
   mkCfg qon ion 10000 10000 10000 31536000000 50 jit 1.
+
+(* ------------------------------------------------------------------------------------------ *)
+(* "Invalidation only forces recomputation"                                                    *)
+
+Definition inval_time (c : cfg) (s : state) : N := fst (determine c s).
+
+(* a cache entry that a request made now would use *)
+Definition i_usable (s : state) (k : ikey) (e : ient) : Prop :=
+  aget ikey_eqb k (s_ic s) = Some e /\ s_now s < ie_exp e /\
+  invalid_at (s_mk s) (s_now s) (ie_lm e) k = false.
+
+Definition q_usable (c : cfg) (s : state) (ks : list ikey) (e : qent) : Prop :=
+  aget qkey_eqb ks (s_qc s) = Some e /\ s_now s < qe_exp e /\ inval_time c s < qe_lm e.
+
+(* s' is s after "more invalidation": same clock and store, data entries removed but never added
+   or altered, every marker still present and not older / not shorter-lived, a later
+   LastCacheInvalidationTime *)
+Definition more_invalid (c : cfg) (s s' : state) : Prop :=
+  s_now s' = s_now s /\ s_db s' = s_db s /\
+  (forall k e, aget ikey_eqb k (s_ic s') = Some e -> aget ikey_eqb k (s_ic s) = Some e) /\
+  (forall ks e, aget qkey_eqb ks (s_qc s') = Some e -> aget qkey_eqb ks (s_qc s) = Some e) /\
+  (forall m e, aget mkey_eqb m (s_mk s) = Some e ->
+     exists e', aget mkey_eqb m (s_mk s') = Some e' /\ me_lm e <= me_lm e' /\ me_exp e <= me_exp e') /\
+  inval_time c s <= inval_time c s'.
+
+(* every usable entry holds what an uncached read would return now *)
+Definition cache_consistent (c : cfg) (s : state) : Prop :=
+  (forall k e, i_usable s k e -> view (s_db s) k (ie_snap e) = view (s_db s) k (length (s_db s))) /\
+  (forall ks e, q_usable c s ks e ->
+     map fst (qe_src e) = ks /\
+     forall k n, In (k, n) (qe_src e) -> view (s_db s) k n = view (s_db s) k (length (s_db s))).
+
+Definition controller_op (o : op) : bool :=
+  match o with InvStart | InvRead | InvFinish => true | _ => false end.
+
+(* the data an answer was computed from / the data an uncached evaluation reads *)
+Definition answer_views (db : list change) (a : src) : list (list change) :=
+  map (fun p => view db (fst p) (snd p)) a.
+Definition uncached_views (db : list change) (keys : list ikey) : list (list change) :=
+  map (fun k => view db k (length db)) keys.
